@@ -7,6 +7,9 @@ import (
 
 	"verifharness/core"
 	"verifharness/enc/ev"
+	"verifharness/hist"
+	"verifharness/run"
+	"verifharness/sim"
 )
 
 // C16, session charset across events: the charset triple a query event yields
@@ -21,6 +24,7 @@ func init() {
 		base(c)
 		if c.Replay == "" {
 			c16CharsetPairs(c)
+			c16EndToEnd(c)
 		}
 	})
 }
@@ -103,5 +107,46 @@ func c16CharsetPairs(c *core.Ctx) {
 			}
 		}
 		c.Cell("charset-pairs")
+	}
+}
+
+// c16EndToEnd: positions, SQL text, database and charset of query events and
+// the effect of every format description (one per file, checksum setting and
+// header-size table changing from file to file) are observed through the
+// streamer: multi-file histories, compared with the model including labels.
+func c16EndToEnd(c *core.Ctx) {
+	nh := c.N(60, 1200)
+	for idx := 0; idx < nh; idx++ {
+		if !c.Mine(idx) {
+			continue
+		}
+		h, tables := c03History(c, 50000+idx)
+		l := h.Build()
+		start := hist.Pos{File: h.FirstFile, Off: 4}
+		exp := hist.Expect(h, l, start)
+		s, err := run.NewSession(l, tables, 1616, start, idx%2 == 0)
+		if err != nil {
+			c.Inconclusive("cannot start master: " + err.Error())
+			return
+		}
+		for _, g := range run.LibGoroutines(nil) {
+			s.Abandon(g.ID)
+		}
+		s.M.SetDefault(&sim.Script{End: sim.EndEOF})
+		res := s.Attempt(run.NoFaults(), nil, maxWait)
+		c.Case(core.HashU64(layoutHash(l), 1616), len(l.Files) > 1)
+		c.Cell("e2e:streamed-history")
+		if len(l.Files) > 1 {
+			c.Cell("e2e:several-format-descriptions")
+		}
+		if res.Verdict == run.Returned {
+			scn := map[string]interface{}{"mode": "end-to-end", "hist": 50000 + idx}
+			if res.Panic != "" {
+				c.Violation("c16:e2e:panic", fmt.Sprintf("history %d: Stream panicked: %s", idx, res.Panic), witnessOf(scn, h, s, nil))
+			} else if d := run.CompareAll(exp, res.Delivered, true); d != nil {
+				c.Violation("c16:e2e:"+d.Kind, fmt.Sprintf("history %d (%d files): %s (stream error: %s)", idx, len(l.Files), d, errStr(res.Err)), witnessOf(scn, h, s, nil))
+			}
+		}
+		s.Close()
 	}
 }
